@@ -667,7 +667,7 @@ def check_same_response(ck, data, where, stats, sections=True):
 def broken_file_problems(desc, data):
     """Files that cannot be parsed are named as errors of each per-file analysis and do not hide the other files."""
     broken = desc.get("broken") or []
-    if not broken:
+    if not broken or desc["kind"] == "only_broken":
         return []
     bad = []
     good = [n for n in desc["files"] if n not in broken]
@@ -742,13 +742,13 @@ def cli_format_flags(ck, d, flags, data, stats, where, replay):
 
 def part_e2e(ck, rng, labels, thorough, stats):
     plans = [("normal", True), ("normal", False), ("no_classes", False), ("clean", False), ("no_functions", False), ("only_classes", False),
-             ("empty_file", False), ("with_broken_file", False)]
+             ("empty_file", False), ("with_broken_file", False), ("only_broken", False)]
     if thorough:
         plans += [("normal", False)] * 6
     for pi, (kind, full) in enumerate(plans):
         d = lib.fresh_dir("c16_p%d" % pi)
         desc = R.make_project(d, rng, kind, full)
-        settings = SETTINGS if kind == "normal" else [SETTINGS[0], SETTINGS[1], SETTINGS[7]]
+        settings = SETTINGS if kind == "normal" else ([SETTINGS[0]] if kind == "only_broken" else [SETTINGS[0], SETTINGS[1], SETTINGS[7]])
         for si, (sname, flags, toml) in enumerate(settings):
             set_toml(d, toml)
             rc, data, err = lib.analyze_json(d, flags)
